@@ -331,6 +331,10 @@ fn judge_scripts(g: &G, text: &str) -> Outcome {
 }
 
 fn case_regress(doc: &serde_json::Value) -> Outcome {
+    if let Some(p) = doc.get("pair").and_then(|p| p.as_array()) {
+        let nm = |v: &serde_json::Value| NAMES.iter().find(|n| Some(**n) == v.as_str()).copied().unwrap_or("X");
+        return case_pair(&(nm(&p[0]), p[1].as_u64().unwrap_or(0) as u32, nm(&p[2]), p[3].as_u64().unwrap_or(0) as u32));
+    }
     if doc.get("mask").is_none() {
         return match super::common::grammar_from_doc(doc) {
             Some(g) => judge_scripts(&g, &print_minimal(&g)),
@@ -345,6 +349,87 @@ fn case_regress(doc: &serde_json::Value) -> Outcome {
     } else {
         case_item(&it)
     }
+}
+
+/// two names at once, each with its own subset of definitions: the choice made for one name must not
+/// depend on what is defined for the other (`cmd <N1> <N2>;`)
+fn pair_grammar(n1: &str, m1: u32, n2: &str, m2: u32) -> G {
+    let mut stmts = vec![Stmt::Call { name: "cmd".into(), e: E::Seq(vec![nt(n1), lit("then"), nt(n2)]) }];
+    for (n, m) in [(n1, m1), (n2, m2)] {
+        for (i, w) in WHICH.iter().enumerate() {
+            if m & (1 << i) != 0 {
+                stmts.push(Stmt::Def { name: n.to_string(), shell: if i == 0 { None } else { Some(w.to_string()) }, e: E::Cmd(marker(n, w)) });
+            }
+        }
+    }
+    G { stmts }
+}
+
+fn case_pair(it: &(&'static str, u32, &'static str, u32)) -> Outcome {
+    let (n1, m1, n2, m2) = *it;
+    let g = pair_grammar(n1, m1, n2, m2);
+    let text = print_minimal(&g);
+    let detail = |shell: &str| json!({"text": text, "g": g.to_json(), "shell": shell, "pair": [n1, m1, n2, m2]});
+    let mut evals = 0;
+    for shell in obs::SHELLS {
+        match c02::judge(&g, &text, shell) {
+            Err(f) => return Outcome::Fail(Failure::new(format!("automaton ({shell}): {}", f.msg), detail(shell))),
+            Ok(None) => return Outcome::Fail(Failure::new(format!("grammar with only command definitions of <{n1}> and <{n2}> was rejected for {shell}"), detail(shell))),
+            Ok(Some(_)) => evals += 1,
+        }
+        let script = match compile_emit(&text, shell) {
+            Ok(s) => s,
+            Err(e) => return Outcome::Fail(Failure::new(format!("could not emit the {shell} script: {e}"), detail(shell))),
+        };
+        let got = match script_commands(shell, &script) {
+            Ok(s) => s,
+            Err(e) => return Outcome::Broken(format!("cannot read command functions of the {shell} script: {e}")),
+        };
+        let mut want: BTreeSet<String> = BTreeSet::new();
+        for (n, m) in [(n1, m1), (n2, m2)] {
+            match expected_choice(m, n, shell) {
+                Choice::User(t) => {
+                    want.insert(t);
+                }
+                Choice::Builtin(b) => {
+                    want.insert(builtin_marker(b));
+                }
+                Choice::Any => {}
+            }
+        }
+        evals += 1;
+        if got != want {
+            return Outcome::Fail(Failure::new(
+                format!("{shell} script for <{n1}> defined by {:?} and <{n2}> defined by {:?}: command functions hold {:?}, expected {:?}", which_list(m1), which_list(m2), got, want),
+                detail(shell),
+            ));
+        }
+    }
+    let mut c = Case::new(format!("pair {:?}", it));
+    c.evals = evals;
+    c.nontrivial = m1 != 0 || m2 != 0;
+    c.class("two_names");
+    if m1 == 1 && m2 == 0 && n1 == "PATH" && n2 == "DIRECTORY" {
+        c.sample = Some(json!({"text": text}));
+    }
+    Outcome::Pass(c)
+}
+
+pub fn pairs() -> Vec<(&'static str, u32, &'static str, u32)> {
+    let mut v = vec![];
+    for n1 in NAMES {
+        for n2 in NAMES {
+            if n1 == n2 {
+                continue;
+            }
+            for m1 in 0..32u32 {
+                for m2 in 0..32u32 {
+                    v.push((n1, m1, n2, m2));
+                }
+            }
+        }
+    }
+    v
 }
 
 pub fn items() -> Vec<Item> {
@@ -369,11 +454,14 @@ pub fn run(tier: Tier, seed: u64) -> i32 {
         tier,
         seed,
         "exploration",
-        "exhaustive: all 2^5 subsets of {plain, @bash, @fish, @zsh, @pwsh} command definitions (distinct marker texts) x name in {X, PATH, DIRECTORY} x 9 reference positions (top level, inside a word, through one/two definitions, under [], ..., ||, inside a word through a definition, twice) x 4 target shells x {definitions before, after the call}. Oracles: (a) compiled automaton == reference semantics implementing the rule @S > plain > built-in > any-word (exact language equivalence, command texts and compadd flag as labels); (b) the command functions read from the emitted script hold exactly the selected command (built-ins recognised by the shell's documented primitive) and no marker of a non-selected definition occurs in the script; (c) metamorphic: removing all definitions for other shells leaves the script byte-identical; (d) bash target: the script is sourced in bash and the candidate offered at the reference is the selected definition's output. random: clean grammars with several specialised names. Non-trivial: >=2 definitions of the name, or a built-in name with a plain definition; distinct by (subset, name, position, shell, order).",
+        "exhaustive: all 2^5 subsets of {plain, @bash, @fish, @zsh, @pwsh} command definitions (distinct marker texts) x name in {X, PATH, DIRECTORY} x 9 reference positions (top level, inside a word, through one/two definitions, under [], ..., ||, inside a word through a definition, twice) x 4 target shells x {definitions before, after the call}; and all 6 ordered pairs of two of the names x 2^5 x 2^5 subsets in `cmd <N1> then <N2>;` (the choice for one name must not depend on what is defined for the other). Oracles: (a) compiled automaton == reference semantics implementing the rule @S > plain > built-in > any-word (exact language equivalence, command texts and compadd flag as labels); (b) the command functions read from the emitted script hold exactly the selected command (built-ins recognised by the shell's documented primitive) and no marker of a non-selected definition occurs in the script; (c) metamorphic: removing all definitions for other shells leaves the script byte-identical; (d) bash target: the script is sourced in bash and the candidate offered at the reference is the selected definition's output. random: clean grammars with several specialised names. Non-trivial: >=2 definitions of the name, or a built-in name with a plain definition; distinct by (subset, name, position, shell, order).",
     );
     run.assumptions.push("fish/zsh/pwsh command functions are read from the script text, not executed (shells absent)".into());
     run.enumerate("regress", load_regress("C11"), false, case_regress);
     run.enumerate("exhaustive-definition-subsets", items(), true, case_item);
+    if !run.failed() {
+        run.enumerate("exhaustive-two-names", pairs(), true, case_pair);
+    }
     if !run.failed() {
         // bash execution: every subset x name x position, definitions first
         let ex: Vec<Item> = items().into_iter().filter(|i| i.shell == "bash" && i.defs_first && (tier == Tier::Thorough || i.pos % 2 == 1 || i.pos == 0)).collect();
@@ -391,7 +479,7 @@ pub fn run(tier: Tier, seed: u64) -> i32 {
 
 pub fn replay(doc: &serde_json::Value) -> i32 {
     let d = if doc.get("detail").is_some() { &doc["detail"] } else { doc };
-    let r = if d.get("mask").is_some() {
+    let r = if d.get("mask").is_some() || d.get("pair").is_some() {
         case_regress(d)
     } else if let Some(g) = G::from_json(&d["g"]) {
         judge_scripts(&g, &print_minimal(&g))
